@@ -1,6 +1,8 @@
+import os
 from abc import ABC, abstractmethod
 from functools import wraps
 from typing import (
+    Any,
     TYPE_CHECKING,
     Callable,
     Deque,
@@ -168,6 +170,26 @@ def reduce_broadcast(grad, var_shape):
     return grad
 
 
+# Verification hook (off unless the environment variable MYGRAD_VERIF=1 is set when mygrad is
+# imported): scope events of the context managers and calls of turn_memory_guarding_on/off are
+# appended to this list together with the two process-wide switches as they are afterwards.
+_VERIF_EVENTS: Optional[list] = [] if os.environ.get("MYGRAD_VERIF") == "1" else None
+
+
+def _verif_emit(kind: str, manager: Any = None) -> None:  # pragma: no cover
+    from mygrad._utils import graph_tracking, lock_management
+
+    _VERIF_EVENTS.append(
+        (
+            kind,
+            type(manager).__name__ if manager is not None else "",
+            manager._depth if manager is not None else -1,
+            bool(graph_tracking.TRACK_GRAPH),
+            bool(lock_management.MEM_GUARD),
+        )
+    )
+
+
 class ContextTracker(ABC):
     """A context manager and decorator for managing a boolean
     global state"""
@@ -199,10 +221,14 @@ class ContextTracker(ABC):
         self._depth_tracker[self._depth] = self.state
         self._depth += 1
         self.state = self._enter_set_value
+        if _VERIF_EVENTS is not None:
+            _verif_emit("enter", self)
 
     def __exit__(self, exc_type, exc_val, exc_tb):
         self._depth -= 1
         self.state = self._depth_tracker.pop(self._depth)
+        if _VERIF_EVENTS is not None:
+            _verif_emit("exit", self)
 
     def __call__(self, func: Callable) -> Callable:
         """Decorates a function within the context"""
